@@ -97,10 +97,11 @@ Definition gcm_pre id callee leg :=
   E id Approved [p_key 0; p_key 1] (sh callee [0;1]) leg.
 
 (* ---- AES-CBC (approved): in, iv, keys, out, len.  len = 0 is a multiple of 16, hence in the
-   documented domain.  The kernels process at least one block (the encryption kernels and
-   the sse/avx decryption kernels are do-while loops; modelled, confirmed by the native
-   harnesses of C16 and C08: they read and write 16 bytes, or fault, on len = 0), so their
-   precondition is len <> 0: the wrapper has to succeed without reaching them. *)
+   documented domain, and leaves the kernel nothing to do (e_pre = len <> 0): the wrapper may
+   pass the call through or return 0 without it.  (On the tree this was built against the
+   encryption kernels and the sse/avx decryption kernels are do-while loops that read and
+   write one block — or fault — on len = 0: found by running the real kernels in the native
+   harnesses of C16 and C08, fixes/F6*.patch.) *)
 Definition cbc id callee leg (pre : form) :=
   {| e_id := id; e_class := Approved; e_params := [p_src 0; p_iv 1; p_key 2; p_dst 3; p_cbc_len 4];
      e_shape := sh callee [0;1;2;3;4]; e_legacy := leg; e_pre := pre; e_samekey := FFalse |}.
